@@ -6,7 +6,7 @@ from gens import expand
 import pyref.bels as RB
 from errs import E, name as ename
 
-RULE = ("cases: secret length 16/24/32 x count 1..16 x threshold 1..count x standard keys (belsShare2/3, Recover2) and generated keys (belsGenM0/Mi/Mid from tapes/ids) x secrets and tapes (random, all-zero, all-FF); "
+RULE = ("cases: secret length 16/24/32 x count 1..16 x threshold 1..count x standard keys (belsShare2/3, Recover2) and generated keys (belsGenM0/Mi/Mid from tapes/ids) x secrets and tapes (random, all-zero, all-FF), the number of generator octets drawn per sharing = (threshold - 1) * len; "
         "subsets: every subset of size >= threshold in every order for count <= 5 (sweep, exhaustive), sampled subsets/orders above; "
         "non-trivial: subset not a prefix, order not ascending, threshold not in {1,count}; distinct by (len, count, threshold, subset, order class)")
 LEVEL = "exploration"
